@@ -171,6 +171,7 @@ FnApply(st, name, args, kw) ==
                                  ELSE RErr(s1, "TypeError")
          [] name = "is_none"  -> ROk(s1, VBool(x = VNone))
          [] name = "is_int"   -> ROk(s1, VBool(IsNum(x)))
+         [] name = "ret_None" -> ROk(s1, VNone)
          [] name = "ret_SKIP" -> ROk(s1, SKIP)
          [] name = "ret_STOP" -> ROk(s1, STOP)
          [] name = "raise_KeyError"   -> RErr(s1, "KeyError")
